@@ -4,6 +4,7 @@ package c03
 import (
 	"encoding/json"
 	"fmt"
+	"math"
 	"sort"
 	"strings"
 
@@ -30,6 +31,8 @@ var patchJSON = []string{
 	// values that are valid but not spelled the way a URL library prints them: they are data, bound by the delta hash as written
 	`{"action":"add-also-known-as","uris":["HTTPS://Upper.example/Me%7e","https://x.example/me#"]}`,
 	`{"action":"add-services","services":[{"id":"s3","type":"T","serviceEndpoint":["HTTP://Upper.example/%7e"]}]}`,
+	// numbers are data as well: whole numbers beyond 2^53 / 2^64, a fraction, a priority
+	`{"action":"ietf-json-patch","patches":[{"op":"add","path":"/n","value":[20000000000000000000,4611686018427387904,0.1,7]}]}`,
 }
 
 // ser serializes a generic value; order gives, for the object at path p, a permutation of its sorted keys.
@@ -115,9 +118,9 @@ func perms(n int) [][]int {
 }
 
 func Run(r *core.Run) {
-	r.Rule = "create requests: patch lists of length 1-2 over all 8 actions (+ 2 patches with unusually spelled URIs) x anchor origin {absent,string,object} x type {absent,set} x hash code x multihash configuration {[18],[19],[18,19],[19,18]} x 2 namespaces; " +
+	r.Rule = "create requests: patch lists of length 1-2 over all 8 actions (+ 2 patches with unusually spelled URIs) x anchor origin {absent,string,object,number beyond 2^64,object with a number beyond 2^53} x type {absent,set} x hash code x multihash configuration {[18],[19],[18,19],[19,18]} x 2 namespaces; " +
 		"(i) suffix = mh(first configured algorithm, JCS(suffix data)), id = namespace:suffix; (ii) every member order of every object (<= 4! each), whitespace at every token boundary (<= 2 insertions), \\u spellings: same DID; " +
-		"(iii) every single-field modification of suffix data or delta, and every string of the delta respelled (case, scheme case, blanks, empty fragment, percent-escape case): DID changes or request rejected; distinct = distinct request texts; non-trivial = all"
+		"(iii) every single-field modification of suffix data or delta, and every string of the delta respelled (case, scheme case, blanks, empty fragment, percent-escape case) and every number of the delta replaced by its neighbouring doubles, +1 and whole numbers beyond 2^64: DID changes or request rejected; distinct = distinct request texts; non-trivial = all"
 	r.Assumptions = []string{"reference suffix from ref/mh + ref/jcs over the suffix data model {deltaHash, recoveryCommitment, anchorOrigin, type}", "unknown extra members are out of scope (dropped by the decoder by design; rejected on the long-form path, C17)"}
 	type cfg struct {
 		algs []uint
@@ -135,7 +138,8 @@ func Run(r *core.Run) {
 			}
 		}
 	}
-	origins := []any{nil, "origin.example", M{"a": 1.0, "b": []any{"x"}}}
+	// (the anchor origin is author-chosen JSON of any type; whole numbers beyond 2^53 and 2^64 exercise the number formatting of the canonical form)
+	origins := []any{nil, "origin.example", M{"a": 1.0, "b": []any{"x"}}, 2e19, M{"n": []any{4611686018427387904.0, 0.1}}}
 	rec, upd := keys.New("Ed25519", 81), keys.New("P-256", 81)
 	type reqT struct {
 		label string
@@ -290,7 +294,7 @@ func Run(r *core.Run) {
 		}{
 			{[]string{"suffixData", "recoveryCommitment"}, []any{ops.Commitment(other, 18), ops.Commitment(other, 19)}},
 			{[]string{"suffixData", "deltaHash"}, []any{ops.HashOf(M{"x": 1.0}, 18), ops.HashOf(M{"x": 1.0}, 19)}},
-			{[]string{"suffixData", "anchorOrigin"}, []any{"other-origin", M{"a": 2.0}, []any{"x"}, nil}},
+			{[]string{"suffixData", "anchorOrigin"}, []any{"other-origin", M{"a": 2.0}, []any{"x"}, nil, 2e19, 3e19, 18446744073709551616.0, 9007199254740993.0, M{"n": []any{4611686018427388928.0, 0.1}}, M{"n": []any{4611686018427387904.0, 0.2}}}},
 			{[]string{"suffixData", "type"}, []any{"y", "xx", nil}},
 			{[]string{"delta", "updateCommitment"}, []any{ops.Commitment(other, 18), ops.Commitment(other, 19)}},
 		} {
@@ -370,7 +374,7 @@ func Run(r *core.Run) {
 		// every string inside the delta, respelled the way a normalising step might consider "the same" (case of the whole string or of
 		// a URI scheme only, surrounding blanks, an empty fragment, case of a percent escape): the delta is data and is bound as written
 		{
-			var leaves [][]any // paths of string leaves
+			var leaves, numLeaves [][]any // paths of string leaves / of number leaves
 			var walk func(v any, path []any)
 			walk = func(v any, path []any) {
 				switch t := v.(type) {
@@ -384,9 +388,52 @@ func Run(r *core.Run) {
 					}
 				case string:
 					leaves = append(leaves, path)
+				case float64:
+					numLeaves = append(numLeaves, path)
 				}
 			}
 			walk(clone()["delta"], nil)
+			// every number inside the delta replaced by its neighbours: next double up and down, +1, and two whole numbers beyond 2^64
+			sort.Slice(numLeaves, func(i, j int) bool { return fmt.Sprint(numLeaves[i]) < fmt.Sprint(numLeaves[j]) })
+			for li, path := range numLeaves {
+				locate := func(root any) (parent any, last any, cur float64) {
+					v := root
+					for _, step := range path[:len(path)-1] {
+						switch k := step.(type) {
+						case string:
+							v = v.(M)[k]
+						case int:
+							v = v.([]any)[k]
+						}
+					}
+					last = path[len(path)-1]
+					switch k := last.(type) {
+					case string:
+						cur = v.(M)[k].(float64)
+					case int:
+						cur = v.([]any)[k].(float64)
+					}
+					return v, last, cur
+				}
+				_, _, cur := locate(clone()["delta"])
+				seen := map[float64]bool{cur: true}
+				for vi, nv := range []float64{math.Nextafter(cur, math.Inf(1)), math.Nextafter(cur, math.Inf(-1)), cur + 1, 2e19, 3e19} {
+					if seen[nv] {
+						continue
+					}
+					seen[nv] = true
+					m := clone()
+					parent, last, _ := locate(m["delta"])
+					switch k := last.(type) {
+					case string:
+						parent.(M)[k] = nv
+					case int:
+						parent.([]any)[k] = nv
+					}
+					differs(fmt.Sprintf("renumber/%s/%d/%d", rq.label, li, vi), m, fmt.Sprintf("delta number at %v changed from %v to %v", path, cur, nv))
+					r.Class("renumbered")
+				}
+			}
 			sort.Slice(leaves, func(i, j int) bool { return fmt.Sprint(leaves[i]) < fmt.Sprint(leaves[j]) })
 			for li, path := range leaves {
 				if len(path) > 0 && path[len(path)-1] == "action" {
@@ -443,6 +490,7 @@ func Run(r *core.Run) {
 	r.Require("reordered", 50)
 	r.Require("modified", 200)
 	r.Require("respelled", 500)
+	r.Require("renumbered", 50)
 	r.Require("whitespace", 5)
 }
 
